@@ -16,6 +16,7 @@ import (
 	"path/filepath"
 	"sort"
 	"strings"
+	"sync/atomic"
 
 	"github.com/AdguardTeam/urlfilter"
 	"github.com/AdguardTeam/urlfilter/filterlist"
@@ -30,7 +31,19 @@ var histHosts = []string{"example.org", "sub.example.org", "ads.example.net", "t
 
 func rndListLine(rnd *rand.Rand) string {
 	h := histHosts[rnd.Intn(len(histHosts))]
-	switch rnd.Intn(25) {
+	switch rnd.Intn(30) {
+	case 25:
+		// no "||" and no scheme: matched against the hostname for DNS requests, against the URL for web requests
+		return h + "|"
+	case 26:
+		return "|" + h + "^"
+	case 27:
+		return "." + h + "^"
+	case 28:
+		// an exception for one part of a site only: which referrer URL asks matters, not just its hostname
+		return "@@||" + h + "/app/$urlblock"
+	case 29:
+		return "@@||" + h + "/app/*$document"
 	case 22:
 		return "||" + h + "/Ads/*$match-case"
 	case 23:
@@ -181,9 +194,9 @@ func rndHistQuery(rnd *rand.Rand) *histQuery {
 	case 2:
 		q.kind = []string{"web", "net"}[rnd.Intn(2)]
 		q.url = []string{"http://", "https://"}[rnd.Intn(2)] + h + []string{"/", "/ads/banner.js", "/ads12/x.png", "/index.html", "/Ads/banner.js", "/ADS/BANNER.JS",
-			"/redirect?to=" + h + "&again=" + h}[rnd.Intn(7)]
+			"/redirect?to=" + h + "&again=" + h, "", "/app/x.js"}[rnd.Intn(9)]
 		if rnd.Intn(3) != 0 {
-			q.src = "https://" + histHosts[rnd.Intn(len(histHosts))] + "/"
+			q.src = "https://" + histHosts[rnd.Intn(len(histHosts))] + []string{"/", "/", "/app/", "/app/index.html", "/news/"}[rnd.Intn(5)]
 		}
 		q.typ = []rules.RequestType{rules.TypeDocument, rules.TypeScript, rules.TypeImage}[rnd.Intn(3)]
 	default:
@@ -558,7 +571,7 @@ func cmdDriveFault(args []string) error {
 	rnd := rand.New(rand.NewSource(seed()*11 + 4))
 	nh, hl := argInt(m, "histories", 20), argInt(m, "len", 60)
 	only := argInt(m, "only", -1)
-	queries, afterFault, served := 0, 0, 0
+	queries, afterFault, served, gatedRuns := 0, 0, 0, 0
 	var samples []string
 	for hnum := 0; hnum < nh; hnum++ {
 		hr := rand.New(rand.NewSource(rnd.Int63()))
@@ -581,6 +594,12 @@ func cmdDriveFault(args []string) error {
 			for i := 0; i < 5000; i++ {
 				lines = append(lines, fmt.Sprintf("0.0.0.0 bulk%04d.example", i))
 			}
+		}
+		// every 4th history: one query is in flight across the fault (see below); its rules are asked for nowhere else
+		gated := hnum%4 == 1 && !bulk
+		gatedHost := fmt.Sprintf("gated%d.example", hnum)
+		if gated {
+			lines = append(lines, "||"+gatedHost+"^", "0.0.0.0 "+gatedHost)
 		}
 		ls := hr.Int63()
 		st, cleanup, err := makeHistStorage(rand.New(rand.NewSource(ls)), lines, m["dir"], true)
@@ -611,9 +630,61 @@ func cmdDriveFault(args []string) error {
 		if bulk {
 			faultAt, total = 5000, 10000
 		}
+		if gated {
+			kind = "close"
+		}
 		hung := false
 		for i := 0; i < total && !hung; i++ {
-			if i == faultAt {
+			if i == faultAt && gated {
+				// query A misses the cache and is held right there (yield point "cache-miss"); query B, the same request,
+				// runs to completion and materialises the rules; then the fault; then A resumes and fails to read.  What B
+				// materialised must survive A's failure: the next query (logged after the fault event) still gets it.
+				q0 := &histQuery{kind: "dnsmatch", host: gatedHost}
+				var armed int32 = 1
+				parked, release, finished := make(chan struct{}), make(chan struct{}), make(chan string, 1)
+				setYield(func(p string) {
+					if p == "cache-miss" && atomic.CompareAndSwapInt32(&armed, 1, 0) {
+						close(parked)
+						<-release
+					}
+				})
+				go func() {
+					_, _, _, _, p := eng.run2(q0)
+					finished <- p
+				}()
+				select {
+				case <-parked:
+				case <-time.After(5 * time.Second):
+					atomic.StoreInt32(&armed, 0)
+				}
+				_, _, g, gn, p := eng.run2(q0)
+				if p != "" {
+					g = []string{"PANIC"}
+				}
+				_, _, tw, twn, _ := twin.run2(q0)
+				out.write(map[string]any{"ev": "query", "q": q0.key(), "got": nz(g), "gotnet": nz(gn), "twin": nz(tw), "twinnet": nz(twn),
+					"ref": nz(trulyMatching(parsed, q0)), "kind": p, "h": hnum})
+				_ = st.Close()
+				out.write(map[string]any{"ev": "fault", "q": "", "got": []string{}, "gotnet": []string{}, "twin": []string{}, "twinnet": []string{}, "ref": []string{}, "kind": "close with a query in flight", "h": hnum})
+				close(release)
+				select {
+				case p = <-finished:
+				case <-time.After(8 * time.Second):
+					p, hung = "the in-flight query did not return within 8 s", true
+				}
+				setYield(nil)
+				if p != "" {
+					out.write(map[string]any{"ev": "query", "q": q0.key(), "got": []string{"PANIC"}, "gotnet": []string{}, "twin": nz(tw), "twinnet": nz(twn),
+						"ref": nz(trulyMatching(parsed, q0)), "kind": p, "h": hnum})
+				}
+				_, _, g, gn, p = eng.run2(q0)
+				if p != "" {
+					g = []string{"PANIC"}
+				}
+				out.write(map[string]any{"ev": "query", "q": q0.key(), "got": nz(g), "gotnet": nz(gn), "twin": nz(tw), "twinnet": nz(twn),
+					"ref": nz(trulyMatching(parsed, q0)), "kind": p, "h": hnum})
+				gatedRuns++
+			} else if i == faultAt {
 				pv := safeCall(func() {
 					if kind == "close" {
 						_ = st.Close()
@@ -686,7 +757,7 @@ func cmdDriveFault(args []string) error {
 			_ = f.Close()
 		}
 	}
-	summary(map[string]any{"events": out.n, "queries": queries, "after_fault": afterFault, "served_after_fault": served, "samples": samples})
+	summary(map[string]any{"events": out.n, "queries": queries, "after_fault": afterFault, "served_after_fault": served, "in_flight_across_fault": gatedRuns, "samples": samples})
 	return nil
 }
 
